@@ -1,5 +1,5 @@
 """C02 - every change of the formatted value is reported."""
-import core, suites, findings
+import core, suites, findings, collide
 from core import World
 from gen import Gen, mode_line, cfg_line
 from suites import gen_history, emit_exec, exp_one_error_no_write, exp_same_fs, run_suite, mutate_call, conflated
@@ -64,6 +64,61 @@ def render(tag, spec):
     return w
 
 
+def exact_pair_world(tag, kind, a, b, mode, name=b'TestPair', form='s', oracle='colliding-lines-reported'):
+    """record a (kind = snap | sasnap | yaml | json | sajson), then - updating not enabled - present b:
+    one failure, nothing written.  If a could not be recorded (not a valid document) nothing is claimed."""
+    from gen import Call
+    mk = (lambda v: Call(kind, v, form)) if kind in ('yaml', 'json', 'sajson') else (lambda v: Call(kind, v))
+    spec = dict(cfgs=[cfg_line(1, 'snaps')], execs=[(name, [(1, mk(a))])], flags=set(), mode=mode, seed=0)
+    w = render(tag, spec)
+    w.spec = None           # the pair is the point: no structural shrinking
+    for j, op in enumerate(w.ops):
+        if op.startswith(kind + ' 1 2 '):
+            rec = [i for i, o in enumerate(w.ops) if o.startswith(kind + ' 1 1 ')][0]
+
+            def exp(line, raw, ww, rec=rec):
+                if [k for k, _ in core.Line(ww.impl[rec]).events] != ['L']:
+                    return None
+                return exp_one_error_no_write(line, raw, ww)
+            w.ops[j] = mk(b).op(1, 2)
+            w.expect[j] = (oracle, exp)
+    return w
+
+
+def collision_worlds(r, thorough=False):
+    """stored and received values that differ ONLY in lines a coarser-than-bytes comparison takes for
+    equal (collide.py: 32-bit hash collisions, equal prefixes/suffixes/lengths, case, whitespace and
+    normalisation variants): as the whole value, inside short and long documents, through every entry
+    point that can carry them"""
+    worlds = []
+    by = {}
+    for p in collide.pairs():
+        by.setdefault(p[0], []).append(p)
+    n = 0
+    for cls in sorted(by):
+        ps = by[cls][:]
+        r.shuffle(ps)
+        for p in ps[:len(ps) if thorough else 2]:
+            shapes = [('snap', 1, 'first'), ('snap', 3, 'first'), ('snap', 4, 'last'), ('sasnap', 3, 'middle'), ('snap', 14, None),
+                      ('sasnap', 1, 'first'), ('snap', r.choice([40, 230]), None)]
+            for kind, nl, where in shapes:
+                a, b = collide.document_pair(r, p, nl, where, repeats=1 if nl < 10 else r.choice([1, 2]))
+                n += 1
+                worlds.append(exact_pair_world('c02-coll-%s-%s-%d' % (cls, kind, n), kind, a, b, NOUPD[n % len(NOUPD)]))
+            la, lb = collide.variant(r, p)
+            printable = all(32 <= c < 127 and c not in b'"\\' for c in la + lb)
+            if printable and la.strip() == la and lb.strip() == lb and la and lb:
+                # the pair as a YAML block-scalar line and as a JSON string value (one line of the pretty-printed document)
+                n += 1
+                worlds.append(exact_pair_world('c02-coll-%s-yaml-%d' % (cls, n), 'yaml', b'title: doc\ntext: |\n  first\n  ' + la + b'\n  last\nz: 1\n',
+                                               b'title: doc\ntext: |\n  first\n  ' + lb + b'\n  last\nz: 1\n', NOUPD[n % len(NOUPD)]))
+                for kind in ('json', 'sajson'):
+                    n += 1
+                    worlds.append(exact_pair_world('c02-coll-%s-%s-%d' % (cls, kind, n), kind, b'{"id": 1, "k": "' + la + b'", "z": [1, 2]}',
+                                                   b'{"id": 1, "k": "' + lb + b'", "z": [1, 2]}', NOUPD[n % len(NOUPD)], form=r.choice(['s', 'b'])))
+    return worlds
+
+
 def known(w, p):
     if p['kind'] != 'expect':
         return None
@@ -79,7 +134,7 @@ def known(w, p):
 def run(ctx):
     g = Gen(ctx.seed * 1000003 + 2)
     n = 150 if ctx.tier == 'quick' else 5000
-    worlds = [render('c02-%d' % i, make_spec(g, ('nosafn',) if g.r.random() < 0.5 else ())) for i in range(n)]
+    worlds = [render('c02-%d' % i, make_spec(g, (('nosafn',) if g.r.random() < 0.5 else ()) + (('punct',) if g.r.random() < 0.3 else ()))) for i in range(n)]
     from gen import Call
     for i, (a, b) in enumerate([(b'a\n---\nb', b'a\n/-/-/-/\nb'), (b'/-/-/-/', b'---'), (b'x\n/-/-/-/\n', b'x\n---\n'), (b'---\n---', b'---\n/-/-/-/')]):
         spec = dict(cfgs=[cfg_line(1, 'snaps')], execs=[(b'TestSwap', [(1, Call('sasnap', a))])], flags=set(),
@@ -109,6 +164,7 @@ def run(ctx):
                     w.ops[j] = Call(kind, b2).op(1, 2)
                     w.expect[j] = ('fixed-pair-reported', suites.exp_one_error_no_write)
             worlds.append(w)
+    worlds += collision_worlds(Gen(ctx.seed * 1000003 + 202).r, ctx.tier == 'thorough')
     run_suite(ctx, 'match.mismatch', worlds, known=known)
     # colours on: the report must still be non-empty (no model: ANSI layout is not modelled)
     gc = Gen(ctx.seed * 1000003 + 22)
@@ -117,5 +173,6 @@ def run(ctx):
     for i in range(nc):
         w = render('c02c-%d' % i, make_spec(gc, ('nosafn',)))
         cw.append(w)
+    cw += collision_worlds(Gen(ctx.seed * 1000003 + 222).r, ctx.tier == 'thorough')
     run_suite(ctx, 'match.mismatch.colour', cw, env={'NO_COLOR': ''}, known=known, use_model=False)
     findings.report(ctx, 'C02')
